@@ -51,9 +51,54 @@ def applyMut (d : DState) (r : Outcome (Coll × Mut)) : DState × String :=
 
 def storageStep (d : DState) (toks : List String) : Option (DState × String) :=
   match toks with
-  | ["new", mode, metric, dim, quant, nameHex] =>
+  | "new" :: mode :: metric :: dim :: quant :: nameHex :: jsonTab =>
     match mode.toNat? >>= FileMode.ofCode, metric.toNat?, dim.toNat?, quant.toNat?, ofHex nameHex with
     | some mode, some metric, some dim, some quant, some name =>
+      -- oracle table for `json.Unmarshal` of the options record: `<blobhex>=<m>,<d>,<q>` or `<blobhex>=err`
+      let tab : List (Bytes × Option Cfg) := jsonTab.filterMap fun e =>
+        match e.splitOn "=" with
+        | [k, v] =>
+          match ofHex k with
+          | none => none
+          | some kb =>
+            if v = "err" then some (kb, none) else
+            match v.splitOn "," with
+            | [a, b, c] => match a.toNat?, b.toNat?, c.toNat? with
+              | some a, some b, some c => some (kb, some { metric := a, dim := b, quant := c })
+              | _, _, _ => none
+            | _ => none
+        | _ => none
+      let needed : Option Bytes :=
+        -- which blob would be decoded? (only when the file exists and its header record is readable)
+        let fileExists : Bool := decide (mode ≠ .createAndOverwrite) && (match d.disk with | some b => !b.isEmpty | none => false)
+        if !fileExists then none else
+        match openFile d.disk mode with
+        | .ok sf => match readRecord sf [] with
+          | .ok header => match header.streams with
+            | s0 :: _ => some s0.data
+            | [] => none
+          | _ => none
+        | _ => none
+      let inTab (b : Bytes) : Bool := (tab.find? (fun e => e.1 == b)).isSome
+      -- the extractor is trusted only on a blob that is byte-for-byte what this code writes
+      let selfWritten (b : Bytes) : Bool := match decodeOpts b with
+        | some c => encodeOpts name c == b
+        | none => false
+      match needed with
+      | some blob =>
+        if !inTab blob && !selfWritten blob then some (d, "need-json " ++ toHexW blob) else
+        let dec : Bytes → Cfg → Option Cfg := fun b _ => match tab.find? (fun e => e.1 == b) with
+          | some (_, r) => r
+          | none => decodeOpts b
+        match newCollection d.disk name { metric := metric, dim := dim, quant := quant } mode dec with
+        | .ok c => some ({ d with coll := some c, disk := some c.sf.file, images := [] }, "ok")
+        | .err m =>
+          let disk' := match openFile d.disk mode with
+            | .ok sf => some sf.file
+            | _ => d.disk
+          some ({ d with coll := none, disk := disk' }, "err " ++ m)
+        | .panic m => some ({ d with coll := none }, "panic " ++ m)
+      | none =>
       match newCollection d.disk name { metric := metric, dim := dim, quant := quant } mode with
       | .ok c => some ({ d with coll := some c, disk := some c.sf.file, images := [] }, "ok")
       | .err m =>
